@@ -21,10 +21,12 @@ func init() {
 
 func c12Case(c *hx.Ctx, r *hx.RNG, idx int64) {
 	switch k := r.Intn(100); {
-	case k < 35:
+	case k < 32:
 		c12Decimal(c, r)
-	case k < 55:
+	case k < 50:
 		c12Binary(c, r)
+	case k < 60:
+		c12Range(c, r)
 	default:
 		c12Language(c, r)
 	}
@@ -79,10 +81,7 @@ func c12Decimal(c *hx.Ctx, r *hx.RNG) {
 	if c.Verbose {
 		fmt.Println("case:", what)
 	}
-	z := newRecv(p, mode)
-	if r.Chance(30) && p > 0 {
-		z.SetInt64(-4242) // previous contents must not matter
-	}
+	z := usedRecv(r, p, mode) // previous contents (incl. a stale accuracy) must not matter
 	var res *decimal.Decimal
 	var hasRes, ok bool
 	var b int
@@ -382,4 +381,118 @@ func exponentMagnitude(s string) (mag int64, huge bool) {
 		n = n*10 + int64(ch-'0')
 	}
 	return n, false
+}
+
+// c12Range: exponents around and far beyond the int32 / int64 limits. A literal is accepted exactly when its exponent
+// text fits an int64 and the leading digit's exponent lies in [MinExp, MaxExp] (a zero mantissa only needs the former).
+func c12Range(c *hx.Ctx, r *hx.RNG) {
+	two := big.NewInt(2)
+	anchors := []*big.Int{
+		new(big.Int).Exp(two, big.NewInt(31), nil), new(big.Int).Exp(two, big.NewInt(32), nil),
+		new(big.Int).Exp(two, big.NewInt(63), nil), new(big.Int).Exp(two, big.NewInt(64), nil),
+		new(big.Int).Mul(new(big.Int).Exp(two, big.NewInt(64), nil), big.NewInt(int64(r.Range(2, 9)))),
+		new(big.Int).Exp(two, big.NewInt(65), nil), hx.CoefOf(r.Digits(r.Range(11, 30))),
+	}
+	e := new(big.Int).Set(anchors[r.Intn(len(anchors))])
+	e.Add(e, big.NewInt(int64(r.Range(-400, 400))))
+	if r.Chance(20) {
+		e.Add(e, big.NewInt(int64(r.Range(-200000, 200000))))
+	}
+	if r.Bool() {
+		e.Neg(e)
+	}
+	nd := r.Range(1, 40)
+	ds := r.Digits(nd)
+	zero := r.Chance(8)
+	if zero {
+		ds = []byte(strings.Repeat("0", nd))
+	}
+	k := nd // digits before the point
+	hasPoint := r.Bool()
+	if hasPoint {
+		k = r.Intn(nd + 1)
+	}
+	var b strings.Builder
+	neg := r.Bool()
+	if neg {
+		b.WriteByte('-')
+	}
+	b.Write(ds[:k])
+	if hasPoint {
+		b.WriteByte('.')
+		b.Write(ds[k:])
+	}
+	b.WriteByte("eE"[r.Intn(2)])
+	es := e.String()
+	if r.Chance(20) && e.Sign() >= 0 {
+		es = "+" + es
+	}
+	if r.Chance(15) { // leading zeros do not change the exponent
+		if es[0] == '-' || es[0] == '+' {
+			es = es[:1] + "000" + es[1:]
+		} else {
+			es = "00" + es
+		}
+	}
+	b.WriteString(es)
+	text := b.String()
+	what := fmt.Sprintf("Parse(%q, 10)", text)
+	c.Note(what)
+	if c.Verbose {
+		fmt.Println("case:", what)
+	}
+	// expected verdict
+	fitsInt64 := e.IsInt64()
+	coef, _ := new(big.Int).SetString(string(ds), 10)
+	wantOK := fitsInt64
+	var o oracle.Outcome
+	if fitsInt64 && !zero {
+		lead := new(big.Int).Add(e, big.NewInt(int64(k))) // exponent of the first written digit ...
+		// ... minus the leading zeros of the digit string
+		lz := 0
+		for lz < nd && ds[lz] == '0' {
+			lz++
+		}
+		lead.Sub(lead, big.NewInt(int64(lz)))
+		wantOK = lead.Cmp(big.NewInt(oracle.MinExp)) >= 0 && lead.Cmp(big.NewInt(oracle.MaxExp)) <= 0
+		if wantOK {
+			o = oracle.Outcome{Ex: oracle.ExDec{Neg: neg, Coef: coef, Exp: e.Int64() - int64(nd-k)}}
+		}
+	}
+	mode := r.Mode()
+	p := int64(r.Range(1, 45))
+	z := usedRecv(r, p, mode)
+	var res *decimal.Decimal
+	var err error
+	pi := hx.Try(func() { res, _, err = z.Parse(text, 10) })
+	cls := "range/rejected"
+	if wantOK {
+		cls = "range/accepted"
+	}
+	c.Eval(hx.HashStr(what), true, cls)
+	if c.WantSample(cls) {
+		c.Sample(cls, what)
+	}
+	if pi != nil {
+		c.Violate("panic", fmt.Sprintf("%s: %s panic %q at %s", what, pi.Class, pi.Text, pi.Stack), "")
+		return
+	}
+	if (err == nil) != wantOK {
+		c.Violate("exponent-range", fmt.Sprintf("%s: accepted=%v (result %v), but the exponent %s with %d digit(s) before the point must be accepted=%v", what, err == nil, res != nil, e, k, wantOK), "")
+		return
+	}
+	if err != nil {
+		if res != nil {
+			c.Violate("non-nil-result-with-error", what, "")
+		}
+		return
+	}
+	got := hx.Snapshot(res)
+	if zero {
+		if got.V.Form != oracle.Zero || got.V.Neg != neg {
+			c.Violate("wrong-value", fmt.Sprintf("%s: stored %s, want a zero", what, got), "")
+		}
+		return
+	}
+	valueVerdict(c, what, o, got, p, mode, "")
 }
